@@ -665,7 +665,10 @@ def rule_declared_types(chk):
             if ty == 'float' or ty.startswith('matrix') and 'float' in ty:
                 bad = bad or (node, "`%s` is declared '%s': single precision in the transpiled code, double precision in Python" % (nm, ty))
         # integer-declared names only ever receive integer expressions
-        intn = set(k for k, (ty, nd) in decl.items() if ty in INTS) | set(a.arg for a in fn.args.args if a.arg in ('n', 'nb', 'nrows', 'ncols', 'na', 'dim'))
+        # (the transpiler types a parameter by its default value: an integer default makes an integer parameter)
+        ndef = len(fn.args.defaults)
+        int_params = set(a.arg for a, d_ in zip(fn.args.args[len(fn.args.args) - ndef:], fn.args.defaults) if isinstance(d_, ast.Constant) and isinstance(d_.value, int) and not isinstance(d_.value, bool))
+        intn = set(k for k, (ty, nd) in decl.items() if ty in INTS) | int_params
         for a in ast.walk(fn):
             if isinstance(a, (ast.Assign, ast.AugAssign)):
                 tg = a.targets[0] if isinstance(a, ast.Assign) else a.target
